@@ -2,7 +2,7 @@
 from props import C03
 from props.conc import *
 
-THEOREMS = ["C04_no_lost_wakeup", "C04_deadlock_free"]
+THEOREMS = ["C04_no_lost_wakeup", "C04_deadlock_free", "C04_bounded_steps"]
 
 
 def run(ck):
@@ -23,4 +23,4 @@ def run(ck):
     ck.cov["max_steps_seen"] = max([len(x["steps"]) for x in res] or [0])
     C03.end_to_end(ck, exe, 120 if big else 30)
     return finish_proof(ck, rule="termination under seeded schedules of the real pipeline (scheduler shim reports 'no enabled thread while a thread is unfinished' as DEADLOCK and > 2*10^6 steps as LIVELOCK): empty inputs, inputs ending exactly on a chunk boundary, more workers than chunks (T up to 16), both directions, uniform and priority schedulers, extra yields inside critical sections in a quarter of the runs; every trace replayed on the Coq transition system (incl. the number of enabled threads at every step); whole encrypt/decrypt/verify under random schedules. distinct = distinct (T, direction, length, schedule)",
-                        assumptions=C03.ASSUME + ["proved: no lost wake-up and deadlock freedom for every reachable state; a closed-form bound on the number of steps (strictly decreasing potential) is not part of the compiled theorems - see DESIGN B-C04"])
+                        assumptions=C03.ASSUME + ["proved: no lost wake-up, deadlock freedom for every reachable state, and a bound on the length of every schedule (strictly decreasing potential): every maximal execution ends in the terminal state"])
